@@ -657,8 +657,7 @@ fn fmt_case(st: &mut Stream, f: &FmtDoc, resp: &Value, family: &str) {
         st.count("nontrivial");
         st.mark_nontrivial(&format!("{}{}", fmtdoc_json(f), resp));
     }
-    let desc = json!({"id": id, "family": family, "fmt": fmtdoc_desc(f), "resp": resp,
-                      "k_csv_unquoted": iline.contains("cols=F")});
+    let desc = json!({"id": id, "family": family, "fmt": fmtdoc_desc(f), "resp": resp});
     st.case(terms, vec![format!("I {} {}", id, iline)], desc);
 }
 
@@ -778,6 +777,9 @@ struct SinkParams {
     preexisting: Option<String>,
     /// bulk: checked by the real parsers only, not replayed by the model
     bulk: bool,
+    /// workers spin a pseudo-random little while before each write (more varied real schedules)
+    #[serde(default)]
+    jitter: bool,
 }
 
 fn sink_format(pr: &SinkParams) -> FmtDoc {
@@ -796,24 +798,55 @@ fn sink_format(pr: &SinkParams) -> FmtDoc {
         ),
     }
 }
-fn sink_response(r: &mut Rng, id: usize, pr: &SinkParams, big: bool) -> Value {
+/// a response of the sink stream, described compactly (SinkRun.sresp builds the same JSON)
+#[derive(Clone, Debug)]
+struct SResp {
+    id: i64,
+    o: i64,
+    d: i64,
+    /// index into ERR_POOL, or -1 for a route
+    e: i64,
+    path: Vec<i64>,
+    tc: i64,
+    ti: i64,
+    di: i64,
+    padn: usize,
+}
+const ERR_POOL: &[&str] = &["no path exists between vertices 2 and 0", "search, \"terminated\"\nearly", "vertex attribute not found for vertex 99"];
+impl SResp {
+    fn value(&self) -> Value {
+        let mut m = Map::new();
+        m.insert("id".into(), json!(self.id));
+        m.insert("request".into(), json!({"origin_vertex": self.o, "destination_vertex": self.d}));
+        if self.e < 0 {
+            m.insert("route".into(), json!({"path": self.path,
+                "cost": {"total_cost": (self.tc as f64) / 64.0, "time": self.ti, "distance": (self.di as f64) / 8.0}}));
+        } else {
+            m.insert("error".into(), json!(ERR_POOL[self.e as usize]));
+        }
+        if self.padn > 0 {
+            m.insert("pad".into(), json!("x".repeat(self.padn)));
+        }
+        Value::Object(m)
+    }
+    fn coq(&self) -> String {
+        format!("(sresp {} {} {} {} {} {} {} {} {})", self.id, self.o, self.d, coq_z(self.e as i128),
+                coq_list(&self.path, |x| x.to_string()), self.tc, self.ti, self.di, self.padn)
+    }
+}
+fn sink_response(r: &mut Rng, id: usize, pr: &SinkParams, big: bool) -> SResp {
     if pr.duplicates {
-        return json!({"id": 0, "request": {"origin_vertex": 1}, "route": {"cost": {"total_cost": 2.5, "time": 1, "distance": 2}}});
+        return SResp { id: 0, o: 1, d: 2, e: -1, path: vec![3], tc: 160, ti: 1, di: 16, padn: 0 };
     }
-    let mut m = Map::new();
-    m.insert("id".into(), json!(id));
-    m.insert("request".into(), json!({"origin_vertex": r.range(0, 99), "destination_vertex": r.range(0, 99)}));
-    if r.chance(1, 4) {
-        m.insert("error".into(), json!(*r.pick(&["no path exists between vertices 2 and 0", "search, \"terminated\"\nearly", "vertex attribute not found for vertex 99"])));
-    } else {
-        m.insert("route".into(), json!({"path": (0..r.below(6)).map(|_| r.range(0, 50)).collect::<Vec<_>>(),
-            "cost": {"total_cost": (r.range(0, 1 << 20) as f64) / 64.0, "time": r.range(0, 500), "distance": (r.range(0, 4000) as f64) / 8.0}}));
-    }
+    let e = if r.chance(1, 4) { r.below(3) as i64 } else { -1 };
     let padn = if big { 100_000 + r.below(3000) as usize } else if pr.size == 1 { (r.below(40) * r.below(40)) as usize } else { 0 };
-    if padn > 0 {
-        m.insert("pad".into(), json!("x".repeat(padn)));
+    SResp {
+        id: id as i64, o: r.range(0, 99), d: r.range(0, 99), e,
+        path: (0..r.below(6)).map(|_| r.range(0, 50)).collect(),
+        // small pools of floats: the decimal text of floats is the fmt stream's business
+        tc: *r.pick(&[0i64, 1, 96, 160, 4097, 65535, 1 << 20, 123457]), ti: *r.pick(&[0i64, 7, 500, 86400]),
+        di: *r.pick(&[0i64, 1, 13, 4000]), padn,
     }
-    Value::Object(m)
 }
 
 struct RunResult {
@@ -834,6 +867,18 @@ fn run_batch(path: &Path, f: &FmtDoc, flush: Option<i64>, pr: &SinkParams, chunk
     let errors: Mutex<Vec<String>> = Mutex::new(vec![]);
     let work = |chunk: Vec<(usize, Value)>| {
         for (idx, mut resp) in chunk {
+            if pr.jitter {
+                let mut x = (pr.seed ^ (idx as u64).wrapping_mul(0x9E37_79B9_7F4A_7C15)) | 1;
+                x ^= x << 13;
+                x ^= x >> 7;
+                x ^= x << 17;
+                for _ in 0..(x % 4000) {
+                    std::hint::spin_loop();
+                }
+                if x % 7 == 0 {
+                    std::thread::yield_now();
+                }
+            }
             match sink.write_response(&mut resp) {
                 Ok(()) => log.lock().unwrap().push((sink_thread_id(), idx)),
                 Err(e) => errors.lock().unwrap().push(e.to_string()),
@@ -886,14 +931,47 @@ fn run_batch(path: &Path, f: &FmtDoc, flush: Option<i64>, pr: &SinkParams, chunk
     Ok(RunResult { queues, trace })
 }
 
-fn coq_event(e: &SinkEvent) -> String {
-    match e {
-        SinkEvent::LockAcquired => "SK.ELock".into(),
-        SinkEvent::RowFormatted(n) => format!("(SK.EFmt {})", n),
-        SinkEvent::Written(n) => format!("(SK.EWrite {})", n),
-        SinkEvent::Flushed => "SK.EFlush".into(),
-        SinkEvent::Released => "SK.ERel".into(),
+fn coq_dig(b: &[u8]) -> String {
+    format!("({}, {})", coq_z(b.len() as i128), coq_z(hash63(b) as i128))
+}
+/// the mapping in column order (what the header and every row must follow)
+fn ordered_mapping(f: &ResponseOutputFormat) -> Vec<(String, CsvMapping)> {
+    match f {
+        ResponseOutputFormat::Csv { mapping, sorted } => {
+            let mut kv: Vec<(String, CsvMapping)> = mapping.iter().map(|(k, v)| (k.clone(), v.clone())).collect();
+            if *sorted {
+                kv.sort_by(|a, b| a.0.cmp(&b.0));
+            } else {
+                kv.reverse();
+            }
+            kv
+        }
+        _ => vec![],
     }
+}
+/// the logical cells of a response: a string by its content, other values by their JSON text,
+/// a failed mapping empty
+fn expected_cells(f: &ResponseOutputFormat, resp: &Value) -> Vec<Vec<u8>> {
+    ordered_mapping(f)
+        .iter()
+        .map(|(_, m)| match m.apply_mapping(resp) {
+            Ok(Value::String(s)) => s.into_bytes(),
+            Ok(v) => v.to_string().into_bytes(),
+            Err(_) => vec![],
+        })
+        .collect()
+}
+/// SinkRun.dec_event
+fn enc_event(t: usize, e: &SinkEvent) -> u64 {
+    let (k, n) = match e {
+        SinkEvent::LockAcquired => (0u64, 0usize),
+        SinkEvent::RowFormatted(n) => (1, *n),
+        SinkEvent::Written(n) => (2, *n),
+        SinkEvent::Flushed => (3, 0),
+        SinkEvent::Released => (4, 0),
+    };
+    assert!(t < 64);
+    ((n as u64) * 8 + k) * 64 + t as u64
 }
 
 fn sink_case(st: &mut Stream, pr: &SinkParams, family: &str, dir: &Path) {
@@ -907,6 +985,7 @@ fn sink_case(st: &mut Stream, pr: &SinkParams, family: &str, dir: &Path) {
         std::fs::write(&path, c).unwrap();
     }
     // responses of all runs, numbered globally
+    let mut sresps: Vec<SResp> = vec![];
     let mut resps: Vec<Value> = vec![];
     let mut runs: Vec<RunResult> = vec![];
     let mut failure: Option<String> = None;
@@ -916,7 +995,9 @@ fn sink_case(st: &mut Stream, pr: &SinkParams, family: &str, dir: &Path) {
         let mut chunks: Vec<Vec<(usize, Value)>> = vec![vec![]; nchunks];
         for i in 0..pr.responses {
             let big = pr.size == 2 && i < nchunks.min(3) && run == 0;
-            let v = sink_response(&mut r, first + i, pr, big);
+            let sr = sink_response(&mut r, first + i, pr, big);
+            let v = sr.value();
+            sresps.push(sr);
             resps.push(v.clone());
             // contiguous chunks as apply_load_balancing / par_chunks produce
             let c = i * nchunks / pr.responses.max(1);
@@ -932,9 +1013,58 @@ fn sink_case(st: &mut Stream, pr: &SinkParams, family: &str, dir: &Path) {
     }
     let bytes = std::fs::read(&path).unwrap_or_default();
     let _ = std::fs::remove_file(&path);
-    // ---- the file, line by line
-    let mut lines: Vec<&[u8]> = bytes.split(|&c| c == b'\n').collect();
-    let tail = lines.pop().unwrap_or(&[]);
+    // ---- the file: previous content / header, then the records a real reader finds
+    let base_len = match (&pr.preexisting, real.initial_file_contents()) {
+        (Some(c), _) => c.len(),
+        (None, Some(h)) => h.len(),
+        (None, None) => 0,
+    }
+    .min(bytes.len());
+    let (prefix, rest) = bytes.split_at(base_len);
+    let mut ok = failure.clone().map(|e| format!("F:{}", e)).unwrap_or_else(|| "T".into());
+    let mut recs: Vec<&[u8]> = vec![];
+    let mut fields: Vec<Vec<Vec<u8>>> = vec![];
+    if pr.format == 0 {
+        let mut ls: Vec<&[u8]> = rest.split(|&c| c == b'\n').collect();
+        let tail = ls.pop().unwrap_or(&[]);
+        if !tail.is_empty() {
+            ok = "F:unterminated-last-line".into();
+            ls.push(tail);
+        }
+        recs = ls;
+    } else {
+        let mut rd = csv::ReaderBuilder::new().has_headers(false).flexible(true).from_reader(rest);
+        let mut starts: Vec<usize> = vec![];
+        for rec in rd.byte_records() {
+            match rec {
+                Ok(rec) => {
+                    starts.push(rec.position().map(|p| p.byte() as usize).unwrap_or(0));
+                    fields.push(rec.iter().map(|f| f.to_vec()).collect());
+                }
+                Err(e) => ok = format!("F:csv-reader-{}", e),
+            }
+        }
+        for (k, st0) in starts.iter().enumerate() {
+            let end = if k + 1 < starts.len() { starts[k + 1] } else { rest.len() };
+            let raw = &rest[*st0..end];
+            match raw.strip_suffix(b"\n") {
+                Some(x) => recs.push(x),
+                None => {
+                    ok = "F:unterminated-last-record".into();
+                    recs.push(raw)
+                }
+            }
+        }
+        // a new file starts with the header: one field per configured column, in the configured order
+        if pr.preexisting.is_none() {
+            let mut rd = csv::ReaderBuilder::new().has_headers(false).flexible(true).from_reader(prefix);
+            let hs: Vec<Vec<Vec<u8>>> = rd.byte_records().filter_map(|r| r.ok()).map(|r| r.iter().map(|f| f.to_vec()).collect()).collect();
+            let names: Vec<Vec<u8>> = ordered_mapping(&real).iter().map(|(k, _)| k.as_bytes().to_vec()).collect();
+            if hs.len() != 1 || hs[0] != names {
+                ok = "F:header-is-not-the-configured-columns".into();
+            }
+        }
+    }
     // expected rows by the real formatter (on clones), for identification of the records
     let mut by_row: HashMap<Vec<u8>, Vec<usize>> = HashMap::new();
     let mut tab = BTreeMap::new();
@@ -962,18 +1092,9 @@ fn sink_case(st: &mut Stream, pr: &SinkParams, family: &str, dir: &Path) {
             }
         }
     }
-    let header_lines = match (&pr.preexisting, real.initial_file_contents()) {
-        (Some(c), _) => c.matches('\n').count(),
-        (None, Some(h)) => h.matches('\n').count(),
-        (None, None) => 0,
-    };
-    let mut ok = failure.clone().map(|e| format!("F:{}", e)).unwrap_or_else(|| "T".into());
     let mut order: Vec<usize> = vec![];
     let mut used = vec![false; resps.len()];
-    for (k, l) in lines.iter().enumerate() {
-        if k < header_lines {
-            continue;
-        }
+    for (k, l) in recs.iter().enumerate() {
         let cands = by_row.get(*l).cloned().unwrap_or_default();
         let free: Vec<usize> = cands.into_iter().filter(|i| !used[*i]).collect();
         let want = trace_order.get(order.len()).copied();
@@ -985,14 +1106,19 @@ fn sink_case(st: &mut Stream, pr: &SinkParams, family: &str, dir: &Path) {
             Some(i) => {
                 used[i] = true;
                 order.push(i);
-                // the record parses back to the response (JSON lines)
-                if pr.format == 0 && !parses_back(std::str::from_utf8(l).unwrap_or(""), &resps[i]) {
-                    ok = format!("F:line-{}-does-not-parse-back", k);
+                if pr.format == 0 {
+                    // the record parses back to the response
+                    if !parses_back(std::str::from_utf8(l).unwrap_or(""), &resps[i]) && ok == "T" {
+                        ok = format!("F:record-{}-does-not-parse-back", k);
+                    }
+                } else if fields.get(k) != Some(&expected_cells(&real, &resps[i])) && ok == "T" {
+                    // the csv reader's fields are the mapping's values, in header order
+                    ok = format!("F:record-{}-fields-differ-from-the-mapping", k);
                 }
             }
             None => {
                 if ok == "T" {
-                    ok = format!("F:line-{}-is-no-record-of-a-pending-response", k);
+                    ok = format!("F:record-{}-belongs-to-no-pending-response", k);
                 }
             }
         }
@@ -1000,13 +1126,9 @@ fn sink_case(st: &mut Stream, pr: &SinkParams, family: &str, dir: &Path) {
     if ok == "T" && used.iter().any(|u| !*u) {
         ok = format!("F:{}-responses-have-no-record", used.iter().filter(|u| !**u).count());
     }
-    if ok == "T" && !tail.is_empty() {
-        ok = "F:unterminated-last-line".into();
-    }
-    let ldig: Vec<String> = lines.iter().map(|l| digest(l)).collect();
     let iline = format!(
-        "acc=T n={} tail={} lines=[{}] order=[{}] ok={}",
-        lines.len(), digest(tail), ldig.join(","), order.iter().map(|x| x.to_string()).collect::<Vec<_>>().join(","), ok
+        "acc=T file={} n={} order=[{}] ok={}",
+        digest(&bytes), recs.len(), order.iter().map(|x| x.to_string()).collect::<Vec<_>>().join(","), ok
     );
     // ---- histogram
     st.count(&format!("family:{}", family));
@@ -1016,6 +1138,9 @@ fn sink_case(st: &mut Stream, pr: &SinkParams, family: &str, dir: &Path) {
     st.count(&format!("size:{}", ["small", "mixed", "100kB"][pr.size as usize]));
     st.count(&format!("runs:{}", pr.runs));
     st.count(if pr.rayon { "executor:rayon" } else { "executor:std_threads" });
+    if pr.jitter {
+        st.count("jitter");
+    }
     let os_threads = runs.iter().map(|r| r.queues.iter().filter(|q| !q.is_empty()).count()).max().unwrap_or(0);
     st.count(&format!("os_threads_that_wrote:{}", os_threads));
     // how interleaved was the real schedule: number of thread switches between consecutive lock acquisitions
@@ -1036,8 +1161,8 @@ fn sink_case(st: &mut Stream, pr: &SinkParams, family: &str, dir: &Path) {
     let desc = json!({"id": id, "family": family, "params": serde_json::to_value(pr).unwrap()});
     if pr.bulk {
         // too large for coqc: the real parsers' verdict only
-        let line = format!("bulk n={} ok={}", lines.len(), ok);
-        let want = format!("bulk n={} ok=T", header_lines + resps.len());
+        let line = format!("bulk n={} ok={}", recs.len(), ok);
+        let want = format!("bulk n={} ok=T", resps.len());
         st.case(
             vec![format!("line \"M\" {} {}", id, coq_str(&line)), format!("line \"S\" {} {}", id, coq_str(&want))],
             vec![format!("I {} {}", id, line)],
@@ -1047,22 +1172,16 @@ fn sink_case(st: &mut Stream, pr: &SinkParams, family: &str, dir: &Path) {
     }
     let coq_runs = coq_list(&runs.iter().enumerate().collect::<Vec<_>>(), |(k, rr)| {
         format!(
-            "{{| r_rate := {}; r_queues := {}; r_trace := {} |}}",
+            "(mk_run {} {} {})",
             coq_opt(&pr.flush[*k % pr.flush.len()], |z| coq_z(*z as i128)),
-            coq_list(&rr.queues, |q| coq_list(q, |i| format!("{}%nat", i))),
-            coq_list(&rr.trace, |(t, e)| format!("({}%nat, {})", t, coq_event(e)))
+            coq_list(&rr.queues, |q| coq_list(q, |i| i.to_string())),
+            coq_list(&rr.trace, |(t, e)| enc_event(*t, e).to_string())
         )
     });
     let t = coq_tab(&tab);
-    let common = format!("{} {} {} {}", coq_fmtdoc(&f), coq_list(&resps, coq_jsonx), coq_ostr(&pr.preexisting), coq_runs);
     let terms = vec![
-        format!("line_sink_M {} {} {}", t, id, common),
-        format!(
-            "line_sink_S {} {} {} {} {} {}",
-            t, id, common,
-            coq_list(&ldig, |d| coq_str(d)), coq_str(&digest(tail)),
-            coq_list(&order, |i| format!("{}%nat", i))
-        ),
+        format!("line_sink_M {} {} {} {} {} {}", t, id, coq_fmtdoc(&f), coq_list(&sresps, |x| x.coq()), coq_ostr(&pr.preexisting), coq_runs),
+        format!("line_sink_S {} {} {}", id, coq_dig(&bytes), coq_list(&order, |i| i.to_string())),
     ];
     st.case(terms, vec![format!("I {} {}", id, iline)], desc);
 }
@@ -1081,7 +1200,7 @@ fn sink_stream(a: &Args) {
         return;
     }
     let base = SinkParams { seed: 1, format: 0, threads: 1, chunks: 1, rayon: false, responses: 1, size: 0, flush: vec![None], runs: 1,
-                            duplicates: false, preexisting: None, bulk: false };
+                            duplicates: false, preexisting: None, bulk: false, jitter: false };
     // ---- deterministic boundary families ----
     for format in 0..3u8 {
         // single thread, single response; every flush rate around the batch size
@@ -1099,7 +1218,7 @@ fn sink_stream(a: &Args) {
         sink_case(&mut st, &SinkParams { format, threads: 3, chunks: 3, responses: 6, size: 2, seed: 25, ..base.clone() }, "boundary_100kB_records", &dir);
         // every parallelism 1..16 with both executors
         for t in 1..=16usize {
-            sink_case(&mut st, &SinkParams { format, threads: t, chunks: t, responses: 4 * t, rayon: t % 2 == 0, flush: vec![Some(3)], seed: 30 + t as u64, ..base.clone() }, "boundary_every_parallelism", &dir);
+            sink_case(&mut st, &SinkParams { format, threads: t, chunks: t, responses: 4 * t, rayon: t % 2 == 0, jitter: t % 3 == 0, flush: vec![Some(3)], seed: 30 + t as u64, ..base.clone() }, "boundary_every_parallelism", &dir);
         }
         // 500 responses
         sink_case(&mut st, &SinkParams { format, threads: 16, chunks: 16, responses: 500, flush: vec![Some(7)], seed: 50, ..base.clone() }, "boundary_500_responses", &dir);
@@ -1125,7 +1244,8 @@ fn sink_stream(a: &Args) {
         let responses = if runs > 1 { responses.min(150) } else { responses };
         let flush = (0..runs).map(|_| match r.below(4) { 0 => None, 1 => Some(1), _ => Some(1 + r.below(responses as u64 + 2) as i64) }).collect();
         let pr = SinkParams { seed: r.next_u64(), format: r.below(3) as u8, threads, chunks, rayon, responses, size, flush, runs,
-                              duplicates: r.chance(1, 25), preexisting: if r.chance(1, 12) { Some("kept line\n".into()) } else { None }, bulk: false };
+                              duplicates: r.chance(1, 25), preexisting: if r.chance(1, 12) { Some("kept line\n".into()) } else { None }, bulk: false,
+                              jitter: r.chance(1, 2) };
         sink_case(&mut st, &pr, "random", &dir);
     }
     let _ = std::fs::remove_dir_all(&dir);
@@ -1144,7 +1264,278 @@ fn main() {
 }
 
 // ---------------------------------------------------------------- app stream (CompassApp::run)
-fn app_stream(_a: &Args) {
-    let _ = (CompassApp::run, CompassAppBuilder::default);
-    unimplemented!()
+
+#[derive(Clone, Debug, serde::Serialize, serde::Deserialize)]
+struct AppParams {
+    seed: u64,
+    queries: usize,
+    parallelism: usize,
+    persist: bool,
+    csv: bool,
+    sorted: bool,
+    flush: Option<i64>,
+    runs: usize,
+    /// file policy from the application's TOML configuration instead of the run configuration
+    toml_policy: bool,
+}
+
+fn app_toml(out: &Path) -> String {
+    let d = "/repo/rust/routee-compass/src/app/compass/test/speeds_test";
+    let d = if Path::new(d).exists() { d.to_string() } else { std::env::var("VERIF_REPO_DATA").unwrap_or(d.to_string()) };
+    format!(
+        r#"
+parallelism = 2
+response_persistence_policy = "persist_response_in_memory"
+[graph]
+edge_list_input_file = "{d}/test_edges.csv"
+vertex_list_input_file = "{d}/test_vertices.csv"
+verbose = false
+[traversal]
+type = "speed_table"
+speed_table_input_file = "{d}/test_edge_speeds.csv"
+speed_unit = "kilometers_per_hour"
+output_time_unit = "hours"
+[access]
+type = "no_access_model"
+[cost]
+cost_aggregation = "sum"
+[cost.weights]
+distance = 0
+time = 1
+[cost.vehicle_rates.time]
+type = "raw"
+[cost.vehicle_rates.distance]
+type = "raw"
+[plugin]
+input_plugins = []
+output_plugins = [ {{ type = "summary" }}, {{ type = "traversal", route = "edge_id", geometry_input_file = "{d}/edge_geometries.txt" }} ]
+[response_output_policy]
+type = "file"
+filename = "{f}"
+file_flush_rate = 3
+[response_output_policy.format]
+type = "json"
+newline_delimited = true
+"#,
+        d = d,
+        f = out.join("app_toml_policy.jsonl").to_str().unwrap()
+    )
+}
+
+fn app_mapping(sorted: bool) -> FmtDoc {
+    FmtDoc::Csv(
+        vec![
+            ("origin".into(), p("request.origin_vertex")),
+            ("dest".into(), p("request.destination_vertex")),
+            ("path".into(), p("route.path")),
+            ("cost".into(), p("route.cost.total_cost")),
+            ("err".into(), MapDoc::Opt(Box::new(p("error")))),
+        ],
+        sorted,
+    )
+}
+
+fn app_case(st: &mut Stream, app: &CompassApp, pr: &AppParams, family: &str, dir: &Path) {
+    let id = st.next_id();
+    let mut r = Rng(pr.seed);
+    let f = if pr.csv { app_mapping(pr.sorted) } else { FmtDoc::Json(true) };
+    let real = real_format(&f);
+    let path = if pr.toml_policy { dir.join("app_toml_policy.jsonl") } else { dir.join(format!("app_{}.out", id)) };
+    let _ = std::fs::remove_file(&path);
+    let mut ok = "T".to_string();
+    let mut coq_runs: Vec<String> = vec![];
+    let mut total_expected = 0usize;
+    let mut kinds = std::collections::BTreeSet::new();
+    let mut prev_len = 0usize;
+    for _run in 0..pr.runs {
+        let queries: Vec<Value> = (0..pr.queries)
+            .map(|_| match r.below(8) {
+                0 => { kinds.insert("unknown_vertex"); json!({"origin_vertex": r.range(0, 2), "destination_vertex": 99}) }
+                1 => { kinds.insert("bad_weight"); json!({"origin_vertex": r.range(0, 2), "destination_vertex": r.range(0, 2), "query_weight_estimate": "abc"}) }
+                2 => { kinds.insert("not_an_object"); json!(7) }
+                _ => { kinds.insert("search"); json!({"origin_vertex": r.range(0, 2), "destination_vertex": r.range(0, 2)}) }
+            })
+            .collect();
+        let mut cfg = json!({"parallelism": pr.parallelism,
+            "response_persistence_policy": if pr.persist { "persist_response_in_memory" } else { "discard_response_from_memory" }});
+        if !pr.toml_policy {
+            let mut pol = json!({"type": "file", "filename": path.to_str().unwrap(), "format": serde_json::from_str::<Value>(&fmtdoc_json(&f)).unwrap()});
+            if let Some(x) = pr.flush {
+                pol["file_flush_rate"] = json!(x);
+            }
+            cfg["response_output_policy"] = pol;
+        }
+        let _ = take_sink_trace();
+        let returned = match app.run(queries.clone(), Some(&cfg)) {
+            Ok(v) => v,
+            Err(e) => {
+                ok = format!("F:run-failed-{}", e.to_string().chars().take(60).collect::<String>().replace(' ', "_"));
+                break;
+            }
+        };
+        let raw = take_sink_trace();
+        total_expected += queries.len();
+        let bytes = std::fs::read(&path).unwrap_or_default();
+        // header of a new file
+        let base_len = if prev_len > 0 { prev_len } else { real.initial_file_contents().map(|h| h.len()).unwrap_or(0) }.min(bytes.len());
+        let rest = &bytes[base_len..];
+        // records of this run
+        let mut recs: Vec<&[u8]> = vec![];
+        let mut fields: Vec<Vec<Vec<u8>>> = vec![];
+        if !pr.csv || pr.toml_policy {
+            let mut ls: Vec<&[u8]> = rest.split(|&c| c == b'\n').collect();
+            if ls.pop().map(|t| !t.is_empty()).unwrap_or(false) {
+                ok = "F:unterminated-last-line".into();
+            }
+            recs = ls;
+        } else {
+            let mut rd = csv::ReaderBuilder::new().has_headers(false).flexible(true).from_reader(rest);
+            let mut starts = vec![];
+            for rec in rd.byte_records().filter_map(|x| x.ok()) {
+                starts.push(rec.position().map(|p| p.byte() as usize).unwrap_or(0));
+                fields.push(rec.iter().map(|f| f.to_vec()).collect());
+            }
+            for (k, s0) in starts.iter().enumerate() {
+                let end = if k + 1 < starts.len() { starts[k + 1] } else { rest.len() };
+                recs.push(rest[*s0..end].strip_suffix(b"\n").unwrap_or(&rest[*s0..end]));
+            }
+        }
+        if recs.len() != queries.len() && ok == "T" {
+            ok = format!("F:{}-records-for-{}-responses", recs.len(), queries.len());
+        }
+        // content: one record per response
+        if pr.persist {
+            if returned.len() != queries.len() && ok == "T" {
+                ok = format!("F:{}-responses-returned-for-{}-queries", returned.len(), queries.len());
+            }
+            let mut used = vec![false; recs.len()];
+            for resp in &returned {
+                let hit = (0..recs.len()).find(|&k| {
+                    !used[k]
+                        && if pr.csv && !pr.toml_policy {
+                            fields[k] == expected_cells(&real, resp)
+                        } else {
+                            parses_back(std::str::from_utf8(recs[k]).unwrap_or(""), resp)
+                        }
+                });
+                match hit {
+                    Some(k) => used[k] = true,
+                    None => {
+                        if ok == "T" {
+                            ok = "F:a-returned-response-has-no-record".into();
+                        }
+                    }
+                }
+            }
+        } else {
+            // responses are not kept: every query must be answered by exactly one record (matched by its request)
+            let key = |q: &Value| format!("{}|{}", q.get("origin_vertex").map(|x| x.to_string()).unwrap_or_default(), q.get("destination_vertex").map(|x| x.to_string()).unwrap_or_default());
+            let mut want: Vec<String> = queries.iter().map(key).collect();
+            let mut got: Vec<String> = if pr.csv && !pr.toml_policy {
+                let names: Vec<String> = ordered_mapping(&real).iter().map(|(k, _)| k.clone()).collect();
+                let (io, id_) = (names.iter().position(|n| n == "origin").unwrap(), names.iter().position(|n| n == "dest").unwrap());
+                fields.iter().map(|f| format!("{}|{}", String::from_utf8_lossy(f.get(io).map(|x| x.as_slice()).unwrap_or(b"?")), String::from_utf8_lossy(f.get(id_).map(|x| x.as_slice()).unwrap_or(b"?")))).collect()
+            } else {
+                recs.iter().map(|l| parse_json_exact(std::str::from_utf8(l).unwrap_or("")).map(|v| key(v.get("request").unwrap_or(&Value::Null))).unwrap_or("unparsable".into())).collect()
+            };
+            want.sort();
+            got.sort();
+            if want != got && ok == "T" {
+                ok = "F:records-do-not-answer-the-queries-one-to-one".into();
+            }
+        }
+        // the trace, with the queues read off the file order (k-th lock acquisition wrote the k-th record)
+        let mut ids: HashMap<u64, usize> = HashMap::new();
+        let mut queues: Vec<Vec<usize>> = vec![];
+        let mut k = 0usize;
+        let mut trace = vec![];
+        for (t, e) in raw {
+            let n = ids.len();
+            let ti = *ids.entry(t).or_insert(n);
+            if ti == queues.len() {
+                queues.push(vec![]);
+            }
+            if let SinkEvent::LockAcquired = e {
+                queues[ti].push(k);
+                k += 1;
+            }
+            trace.push(enc_event(ti, &e));
+        }
+        let flush = if pr.toml_policy { Some(3) } else { pr.flush };
+        coq_runs.push(format!(
+            "({}, {}, {}, {}, {})",
+            coq_opt(&flush, |z| coq_z(*z as i128)), base_len, coq_list(&recs, |x| x.len().to_string()),
+            coq_list(&queues, |q| coq_list(q, |i| i.to_string())), coq_list(&trace, |x| x.to_string())
+        ));
+        st.count(&format!("os_threads_that_wrote:{}", queues.len().min(17)));
+        prev_len = bytes.len();
+    }
+    let bytes = std::fs::read(&path).unwrap_or_default();
+    let _ = std::fs::remove_file(&path);
+    // n = records after the header, over all runs
+    let nrec: usize = total_expected;
+    let iline = format!("acc=T n={} bytes={} ok={}", if ok == "T" { nrec } else { 0 }, bytes.len(), ok);
+    st.count(&format!("family:{}", family));
+    st.count(if pr.csv && !pr.toml_policy { "format:csv" } else { "format:json_lines" });
+    st.count(if pr.persist { "policy:persist" } else { "policy:discard" });
+    st.count(&format!("parallelism:{}", pr.parallelism));
+    st.count(&format!("runs:{}", pr.runs));
+    for k in &kinds {
+        st.count(&format!("has:{}", k));
+    }
+    if kinds.len() >= 2 {
+        st.count("nontrivial");
+        st.mark_nontrivial(&format!("{:?}", pr));
+    }
+    let desc = json!({"id": id, "family": family, "params": serde_json::to_value(pr).unwrap()});
+    st.case(
+        vec![
+            format!("line_app_M {} {}", id, coq_list(&coq_runs, |x| x.clone())),
+            format!("line_app_S {} {} {}", id, nrec, bytes.len()),
+        ],
+        vec![format!("I {} {}", id, iline)],
+        desc,
+    );
+}
+
+fn app_stream(a: &Args) {
+    let header = "From Coq Require Import ZArith List String Floats.\nFrom RC Require Import Base.Show Base.Json Model.Sink Model.SinkRun.\nImport ListNotations.\nOpen Scope string_scope.\nOpen Scope Z_scope.";
+    let mut st = Stream::new(&a.out, "app", header, a.shards);
+    let dir: PathBuf = a.out.join("files");
+    std::fs::create_dir_all(&dir).unwrap();
+    let toml = app_toml(&dir);
+    let conf = dir.join("conf.toml");
+    std::fs::write(&conf, &toml).unwrap();
+    let app = CompassApp::try_from_config_toml_string(toml, conf.to_str().unwrap().to_string(), &CompassAppBuilder::default())
+        .expect("CompassApp builds from the speeds_test configuration");
+    if let Some(pth) = &a.replay {
+        st.full = true;
+        let v: Value = serde_json::from_str(&std::fs::read_to_string(pth).unwrap()).unwrap();
+        let pr: AppParams = serde_json::from_value(v["case"]["params"].clone()).unwrap();
+        app_case(&mut st, &app, &pr, "replay", &dir);
+        st.finish();
+        return;
+    }
+    let base = AppParams { seed: 1, queries: 4, parallelism: 2, persist: true, csv: false, sorted: false, flush: None, runs: 1, toml_policy: false };
+    // the D-ERRNOTWRITTEN witness shape and both policies / formats at small size
+    for persist in [true, false] {
+        for csv in [false, true] {
+            app_case(&mut st, &app, &AppParams { persist, csv, seed: 5, queries: 8, parallelism: 4, ..base.clone() }, "boundary_policies_formats", &dir);
+            app_case(&mut st, &app, &AppParams { persist, csv, seed: 6, queries: 1, parallelism: 1, ..base.clone() }, "boundary_single_query", &dir);
+            app_case(&mut st, &app, &AppParams { persist, csv, seed: 7, queries: 12, parallelism: 3, runs: 2, flush: Some(5), ..base.clone() }, "boundary_two_runs_same_file", &dir);
+        }
+        app_case(&mut st, &app, &AppParams { persist, seed: 8, queries: 10, parallelism: 2, toml_policy: true, ..base.clone() }, "boundary_policy_from_toml", &dir);
+    }
+    let mut rng = Rng::new(a.seed);
+    while st.next_id() < a.n {
+        let mut r = rng.fork();
+        let pr = AppParams {
+            seed: r.next_u64(), queries: 1 + r.below(60) as usize, parallelism: 1 + r.below(16) as usize, persist: r.chance(1, 2),
+            csv: r.chance(1, 2), sorted: r.chance(1, 2), flush: if r.chance(1, 2) { None } else { Some(1 + r.below(9) as i64) },
+            runs: if r.chance(1, 4) { 2 } else { 1 }, toml_policy: false,
+        };
+        app_case(&mut st, &app, &pr, "random", &dir);
+    }
+    let _ = std::fs::remove_dir_all(&dir);
+    st.finish();
 }
